@@ -5,6 +5,7 @@ package turn
 import (
 	"bytes"
 	"crypto/hmac"
+	"crypto/md5" //nolint:gosec
 	"crypto/sha1" //nolint:gosec
 	"encoding/base64"
 	"fmt"
@@ -20,6 +21,12 @@ import (
 )
 
 // independent computation of the expected password
+// the long-term key of RFC 5389 15.4, computed here and not by the code under test: MD5(username ":" realm ":" password)
+func c17Key(username, realm, password string) []byte {
+	h := md5.Sum([]byte(username + ":" + realm + ":" + password)) //nolint:gosec
+	return h[:]
+}
+
 func c17Password(secret, username string) string {
 	m := hmac.New(sha1.New, []byte(secret))
 	_, _ = m.Write([]byte(username))
@@ -50,8 +57,8 @@ func TestVerif_C17(t *testing.T) { //nolint:cyclop
 		time.Sleep(time.Duration(1+rng.Intn(999)) * time.Millisecond)
 		for round := 0; round < nrounds; round++ {
 			secret := string(verifsim.Pick(rng, [][]byte{[]byte("s3cret"), []byte(""), rng.Bytes(1 + rng.Intn(20)), []byte("sec:ret")}))
-			realm := verifsim.Pick(rng, []string{"realm1", "", "pion.ly", "r:x"})
-			user := verifsim.Pick(rng, []string{"alice", "", "bob:extra", "a:b:c", "1234", "ünï"})
+			realm := verifsim.Pick(rng, []string{"realm1", "", "pion.ly", "r:x", "100%turn", "%s"})
+			user := verifsim.Pick(rng, []string{"alice", "", "bob:extra", "a:b:c", "1234", "ünï", "alice%40example.com", "%d%%", "a\\b\n"})
 			rest := rng.Bool()
 			dur := verifsim.Pick(rng, []time.Duration{0, -time.Second, -3 * time.Second, time.Second, 2 * time.Second, 1500 * time.Millisecond,
 				time.Hour, 999 * time.Millisecond, time.Duration(rng.Intn(5000)) * time.Millisecond})
@@ -76,7 +83,7 @@ func TestVerif_C17(t *testing.T) { //nolint:cyclop
 			check := func(uname string, tag string) {
 				n := time.Now()
 				uid, key, ok := handler(&RequestAttributes{Username: uname, Realm: realm, SrcAddr: &net.UDPAddr{IP: net.IPv4(10, 0, 0, 2), Port: 5000}})
-				keyOK := ok && bytes.Equal(key, GenerateAuthKey(uname, realm, c17Password(secret, uname)))
+				keyOK := ok && bytes.Equal(key, c17Key(uname, realm, c17Password(secret, uname)))
 				col.Add("handler", tag, ok, fmt.Sprintf("KHandle %s %d %s %s", verifsim.CoqBool(rest), n.UnixNano(),
 					verifsim.CoqBytes([]byte(uname)), c17Opt(uid, keyOK, ok)))
 			}
@@ -130,7 +137,7 @@ func TestVerif_C17(t *testing.T) { //nolint:cyclop
 				var username, password string
 				dur := verifsim.Pick(rng, []time.Duration{2 * time.Second, time.Second, 0, -time.Second, time.Minute})
 				if rest {
-					username, password, _ = GenerateLongTermTURNRESTCredentials(secret, "carol", dur)
+					username, password, _ = GenerateLongTermTURNRESTCredentials(secret, verifsim.Pick(rng, []string{"carol", "carol%40example.com", "c%d"}), dur)
 				} else {
 					username, password, _ = GenerateLongTermCredentials(secret, dur)
 				}
@@ -155,7 +162,7 @@ func TestVerif_C17(t *testing.T) { //nolint:cyclop
 				tid := w.newTid()
 				m, err := stun.Build(&stun.Message{TransactionID: tidBytes(tid)}, stun.NewType(stun.MethodAllocate, stun.ClassRequest),
 					proto.RequestedTransport{Protocol: proto.ProtoUDP}, stun.NewUsername(username), stun.NewRealm("realm1"), stun.NewNonce(w.nonce),
-					stun.MessageIntegrity(GenerateAuthKey(username, "realm1", usePw)))
+					stun.MessageIntegrity(c17Key(username, "realm1", usePw)))
 				if err != nil {
 					t.Fatal(err)
 				}
@@ -177,7 +184,7 @@ func TestVerif_C17(t *testing.T) { //nolint:cyclop
 				if success {
 					rm, _ := stun.Build(stun.TransactionID, stun.NewType(stun.MethodRefresh, stun.ClassRequest), proto.Lifetime{},
 						stun.NewUsername(username), stun.NewRealm("realm1"), stun.NewNonce(w.nonce),
-						stun.MessageIntegrity(GenerateAuthKey(username, "realm1", usePw)))
+						stun.MessageIntegrity(c17Key(username, "realm1", usePw)))
 					w.sendToServer(w.clients[ci], rm.Raw)
 					synctest.Wait()
 					w.net.Drain()
